@@ -51,7 +51,10 @@ def parse_number(tok):
   if signed: rest = rest[1:]
   base = {"b": 2, "d": 10, "h": 16, "o": 8}[rest[0].lower()]
   digits = rest[1:].lower().replace("x", "0").replace("z", "0").replace("?", "0")
-  v = int(digits, base)
+  try:
+    v = int(digits, base)
+  except ValueError:
+    raise SVError(f"malformed number literal {tok!r}")
   w = int(size) if size else 32
   return ("num", v & ((1 << w) - 1), w, signed)
 
